@@ -28,6 +28,12 @@ fn main() {
         let mut st = util::Stats::default();
         let res = match case["layer"].as_str() {
             Some("store") => store_layer::replay(&case, &mut st),
+            Some("store-cycle2") => {
+                let w: Vec<walkit::store::TxKind> = case["word"].as_str().unwrap_or("").chars()
+                    .filter_map(|c| walkit::store::KINDS.iter().copied().find(|k| k.letter() == c)).collect();
+                let d = walkit::fresh_dir(&mc::scratch_root(), "replay-cycle2");
+                walkit::store::build_log(&d, &w, 0, true).map(|log| store_layer::crash_during_recovery(&r, &[log]))
+            }
             Some("host") | Some("host-continue") => host_layer::replay(&case, &mut st),
             Some("store-fault") | Some("host-fault") => fault_layer::replay(&case, &mut st),
             other => Err(format!("replay of layer {other:?} not supported")),
@@ -51,7 +57,8 @@ fn main() {
     }
     let only = std::env::var("C10_ONLY").unwrap_or_default();
     if only.is_empty() || only.contains("store") {
-        let _logs = store_layer::run(&r);
+        let logs = store_layer::run(&r);
+        store_layer::crash_during_recovery(&r, &logs);
     }
     let host = if only.is_empty() || only.contains("host") || only.contains("fault") {
         host_layer::run(&r)
